@@ -132,7 +132,11 @@ def doPat (sp : List Char) (fields : List String) : Cur × String :=
       let modelled := exprModelled tree && (match built with | .ok b => raModelled b | .error _ => true)
       let cur : Cur := ⟨tree, backrefs, built, modelled, sp⟩
       let ans := match built with
-        | .error e => "err:" ++ errName e
+        | .error e =>
+          -- the domain flags of the numbered tree all the same: when the implementation accepts what the model
+          -- rejects (a look-behind judged constant-size), the check still compares it with the reference
+          let raw := (renumber tree 1).1
+          s!"err:{errName e} ws={b01 (wellShaped raw)} closed={b01 (closed raw)} nel={b01 (noEmptyLoop raw)} ncl={b01 (noCondLeak raw)} mod={b01 modelled}"
         | .ok b =>
           let kind := match b.kind with | .wrap => "wrap" | .fancy _ => "fancy"
           -- the decidable side conditions of the proved compiler-correctness theorem (`C01_vm_correct_s2`)
@@ -176,6 +180,20 @@ def doCaps (cur : Cur) (fields : List String) : String :=
     match unhex htext, pos.toNat?, bool01 sk, limit.toNat? with
     | some text, some bytePos, some skipped, some limit =>
       match cur.built with
+      | .error .lookBehindNotConst =>
+        -- no program; the reference semantics of a look-behind does not need a constant size
+        let chars := text.toList
+        if !(cur.modelled && chars.all Chars.modelledChar) then "err:LookBehindNotConst" else
+        let off := offsets chars
+        match charIndexOf off bytePos with
+        | none => "err:LookBehindNotConst"
+        | some cpos =>
+          let c := mkCtx chars cpos skipped
+          let raw := (renumber cur.tree 1).1
+          let ref := match refSearchK c raw (groupCount cur.tree + 1) with
+            | some f => SearchResult.found f.slots
+            | none => .noMatch
+          s!"err:LookBehindNotConst\t-\t{showResult off ref}"
       | .error e => "err:" ++ errName e
       | .ok b =>
         let chars := text.toList
